@@ -115,7 +115,7 @@ func publishBeforeErrorCheck(c *core.Ctx, rels ...string) {
 func jsonMarshalersUseJSON(c *core.Ctx) {
 	p := c.P
 	n := 0
-	for _, fn := range repoFns(p, "object") {
+	for _, fn := range repoFns(p) {
 		if fn.Name() != "MarshalJSON" || fn.Signature.Recv() == nil {
 			continue
 		}
@@ -140,6 +140,31 @@ func jsonMarshalersUseJSON(c *core.Ctx) {
 						if k, ok := a.(*ssa.Const); ok && k.Value != nil && strings.Contains(k.Value.ExactString(), "%q") {
 							bad = "fmt." + name + " with %q at " + p.Pos(in.Pos())
 						}
+					}
+				}
+			}
+		}
+		// raw text returned as JSON: []byte(s) of a string that is not a formatted number or a constant
+		for _, b := range fn.Blocks {
+			for _, in := range b.Instrs {
+				cv, ok := in.(*ssa.Convert)
+				if !ok || !core.IsStringType(cv.X.Type()) {
+					continue
+				}
+				if _, isBytes := cv.Type().Underlying().(*types.Slice); !isBytes {
+					continue
+				}
+				for _, o := range core.Origins(cv.X) {
+					switch x := o.(type) {
+					case *ssa.Const:
+					case *ssa.Call:
+						cal := x.Call.StaticCallee()
+						okNum := cal != nil && cal.Pkg != nil && ((cal.Pkg.Pkg.Path() == "fmt" && cal.Name() == "Sprintf") || (cal.Pkg.Pkg.Path() == "strconv" && (strings.HasPrefix(cal.Name(), "Format") || cal.Name() == "Itoa")))
+						if !okNum {
+							bad = "the text of " + x.String() + " is returned as JSON without quoting, at " + p.Pos(cv.Pos())
+						}
+					default:
+						bad = "a string is returned as JSON without quoting, at " + p.Pos(cv.Pos())
 					}
 				}
 			}
